@@ -615,6 +615,7 @@ theorem InvB.step {s : State} (hB : InvB s) (hF : InvF s) (op : Op) : InvB (step
   | lockrec cid b => exact hB.shrink rfl (fun _ h => h) (fun _ h => h) (fun _ h => h) rfl (fun _ h => h) rfl
   | setlimit cid l => exact hB.shrink rfl (fun _ h => h) (fun _ h => h) (fun _ h => h) rfl (fun _ h => h) rfl
   | cfgcancel b => exact hB.shrink rfl (fun _ h => h) (fun _ h => h) (fun _ h => h) rfl (fun _ h => h) rfl
+  | panicRecover => exact hB
 
 theorem InvB.init (n limit nfwd : Nat) : InvB (init n limit nfwd) := by
   refine ⟨?_, ?_, ?_, ?_, ?_, ?_, ?_, ?_⟩ <;> simp [CGV.BatchMux.init, unsent]
